@@ -183,6 +183,7 @@ def body(run):
 
     drv = V.go_build(PID, "drv")
     hs = histories(run)
+    by_id = {h["id"]: h for h in hs}
     lines, stats, wall = run_histories(drv, hs)
     V.log("  replayed %d histories (%d trace lines, %d crashed the process) in %.1fs" % (stats["histories"], len(lines), stats["crashed"], wall))
     # group by pool configuration: Max / MinConns are constants of the specification
@@ -233,6 +234,40 @@ def body(run):
                 pass
             return "history %s (Max=%d, MinConns=%d): the specification rejects line %d (%s): %s" % (
                 b.get("id") if b else "?", mx, minc, r["line_no"], r["why"], (r["line"] or "")[:400])
+        # A history runs on real timers and goroutines: a rejection is a verdict only if the history is rejected again
+        # when it is replayed by itself (five times, one after the other); otherwise it is kept as a note.
+        kept = []
+        for r in v.rejections:
+            hid = None
+            try:
+                sh = V.read_ndjson(r["shard"])
+                i = r["line_no"] - 1
+                while i >= 0 and '"ev":"Begin"' not in sh[i]:
+                    i -= 1
+                hid = json.loads(sh[i])["id"]
+            except Exception:
+                pass
+            h = by_id.get(hid)
+            if h is None or r.get("line") is None or '"ev":"Crash"' in (r.get("line") or ""):
+                kept.append(r)
+                continue
+            again = None
+            for k in range(5):
+                ls2, err2 = run_chunk(drv, V.workdir(PID, "pool-rerun", clean=False), "rr-%s-%d" % (hid, k), [h], 1)
+                if ls2 is None:
+                    ls2 = [json.dumps({"ev": "Begin", "id": h["id"], "users": h["users"], "max": h["max"], "minc": h["minc"],
+                                       "lifeMs": h["lifeMs"], "idleMs": h["idleMs"]}), json.dumps({"ev": "Crash", "stderr": (err2 or "")[-1500:]})]
+                v2 = V.validate_traces(PID, "Trace_Pool", cfgname, ls2, lambda l: '"ev":"Begin"' in l, timeout=600, dfs=True,
+                                       name="tv-rerun-%s-%d" % (hid, k), extra_files={cfgname: cfgtext})
+                if v2.rejections:
+                    again = v2.rejections[0]
+                    break
+            if again is None:
+                run.notes.append("rejection of history %s not reproduced in 5 replays of the history by itself: %s" % (hid, (r["line"] or "")[:200]))
+                V.log("  NOTE: the rejection of history %s was not reproduced in 5 replays; not a verdict" % hid)
+            else:
+                kept.append(again)
+        v.rejections = kept
         run.add_trace_rejections(v, key, desc)
     sample = []
     for l in lines:
